@@ -203,15 +203,12 @@ func FloatToString(value float64) string {
 // int to other
 
 func IntToBigDecimalFloat(value int64) apd.Decimal {
-	if value < 0 {
-		return apd.Decimal{
-			Negative: true,
-			Coeff:    *big.NewInt(-value),
-		}
-	}
-	return apd.Decimal{
-		Coeff: *big.NewInt(value),
-	}
+	// Take the absolute value as a big.Int: -value overflows for MinInt64
+	var d apd.Decimal
+	d.Coeff.SetInt64(value)
+	d.Coeff.Abs(&d.Coeff)
+	d.Negative = value < 0
+	return d
 }
 
 func IntToUint(value int64) (uint64, error) {
